@@ -188,7 +188,9 @@ def build_all(ctx, release=False):
     with ThreadPoolExecutor(max_workers=2) as ex:
         list(ex.map(one, sorted(CONFIGS)))
     if errs:
-        raise RuntimeError("harness `ovf` does not build against %s:\n%s" % (ctx.repo, "\n".join(v[-3000:] for v in errs.values())))
+        cfg = sorted(errs)[0]
+        common.harness_build_failed(ctx, "ovf", errs[cfg], features=CONFIGS[cfg], release=release, what="the overflow child-process harness")
+        raise common.HarnessBuildChanged()
     return bins
 
 
